@@ -31,12 +31,22 @@ def shown (caps : Caps) (s : Style) : TStyle :=
     hidden := hasBit s.attr Render.attrInvisible
     strike := hasBit s.attr Render.attrStrikethrough }
 
+/-- OSC 8 is `OSC 8 ; params ; URI ST` (params: `key=value` pairs separated by `:`), so a parameter
+    field cannot contain `;`: what a terminal can be told of an application's parameter string is
+    the part before its first `;` (byte 0x3b).  Strings are hex, two characters per byte. -/
+def paramFieldL : List Char → List Char
+  | [] => []
+  | [a] => [a]
+  | a :: b :: r => if (a, b) = ('3', 'b') then [] else a :: b :: paramFieldL r
+
+def paramField (s : String) : String := String.ofList (paramFieldL s.toList)
+
 /-- Resolved display width of a cell (Go `int`). -/
 def cellWidth (cw : String → Nat) (c : Cell) : Int := if c.w = 0 then (cw c.g : Int) else c.w
 
 def expectedCell (cw : String → Nat) (caps : Caps) (c : Cell) : DCell :=
   let w := cellWidth cw c
-  let lp := if c.style.link = "" then "" else c.style.linkParams
+  let lp := paramField (if c.style.link = "" then "" else c.style.linkParams)
   if w ≤ 0 then .glyph "20" 1 (shown caps c.style) lp c.style.link
   else .glyph c.g w.toNat (shown caps c.style) lp c.style.link
 
